@@ -346,6 +346,8 @@ const FAIL_QUORUM: u64 = 2;
 
 pub struct World {
     fail_mode: bool,
+    snap: Mutex<Option<MetaStore>>,      // `snapshot` / `restore`: the broker restarts from an earlier copy of its store
+    restores: Mutex<Vec<usize>>,         // broker times at which the store was replaced by the snapshot
     store: Mutex<MetaStore>,
     reg: Arc<Registry>,
     ctl: Mutex<Ctl>,
@@ -1375,9 +1377,9 @@ async fn probe_route(w: &Arc<World>, i: usize) -> String {
 }
 
 // where the broker's cluster view puts the probe slot when nothing is migrating: (proxy index, node address)
-fn probe_owner(w: &World) -> Option<(usize, String)> {
+fn probe_owner(w: &World, cluster: &str) -> Option<(usize, String)> {
     let slot = generate_slot(PROBE);
-    let c = w.store.lock().get_cluster_by_name(CLUSTER, MIGRATION_LIMIT)?;
+    let c = w.store.lock().get_cluster_by_name(cluster, MIGRATION_LIMIT)?;
     for n in c.get_nodes() {
         if n.get_role() != Role::Master {
             continue;
@@ -1404,9 +1406,34 @@ async fn run_steps(w: Arc<World>, steps: Vec<Vec<String>>) -> (Vec<String>, Vec<
     for (si, toks) in steps.iter().enumerate() {
         let u = |k: usize| -> usize { toks[k].parse().expect("num") };
         match toks[0].as_str() {
-            "addproxy" | "addcluster" | "addnodes" | "migrate" | "failover" | "config" | "rmproxy" | "scaledown" | "failoverheld" => {
+            "snapshot" => {
+                let copy = { w.store.lock().clone() };
+                *w.snap.lock() = Some(copy);
+                prog.push("nop".to_string());
+                obs.push("F".to_string());
+            }
+            "addproxy" | "addcluster" | "addnodes" | "migrate" | "failover" | "config" | "rmproxy" | "scaledown" | "failoverheld"
+            | "addclusterx" | "rmclusterx" | "restore" | "recover" => {
                 let before = w.pending_ids();
                 let chunks_before: Vec<(String, String)> = chunk_pairs(&w);
+                // epoch recovery takes the largest epoch any proxy reports (fetch_max_epoch: UMCTL GETEPOCH)
+                let mut max_proxy_epoch: u64 = 0;
+                if toks[0] == "recover" {
+                    let n = { w.ctl.lock().nproxy };
+                    for i in 1..=n {
+                        let h = { w.reg.handlers.lock().get(&paddr(i)).cloned() };
+                        if let Some(h) = h {
+                            if let Some(Resp::Integer(b)) = send_cmd(&h, vec![b"UMCTL".to_vec(), b"GETEPOCH".to_vec()]).await {
+                                max_proxy_epoch = max_proxy_epoch.max(String::from_utf8_lossy(&b).parse().unwrap_or(0));
+                            }
+                        }
+                    }
+                }
+                if toks[0] == "restore" {
+                    let t = { w.ctl.lock().time + 1 };
+                    w.restores.lock().push(t);
+                }
+                let snap_copy = { w.snap.lock().clone() };
                 let res: Result<(), MetaStoreError> = {
                     let mut st = w.store.lock();
                     match toks[0].as_str() {
@@ -1419,6 +1446,20 @@ async fn run_steps(w: Arc<World>, steps: Vec<Vec<String>>) -> (Vec<String>, Vec<
                         "migrate" => st.migrate_slots(CLUSTER.to_string()),
                         "failover" => st.replace_failed_proxy(paddr(u(1)), MIGRATION_LIMIT).map(|_| ()),
                         "scaledown" => st.migrate_slots_to_scale_down(CLUSTER.to_string(), u(1)),
+                        "addclusterx" => st.add_cluster(format!("c{}", u(1)), u(2), ClusterConfig::default()),
+                        "rmclusterx" => st.remove_cluster(format!("c{}", u(1))),
+                        "restore" => {
+                            // the broker process restarts from the snapshot: whatever happened after it is lost
+                            if let Some(sn) = snap_copy {
+                                *st = sn;
+                            }
+                            Ok(())
+                        }
+                        "recover" => {
+                            // service.rs recover_epoch: storage.recover_epoch(max + 1); storage.rs: store.recover_epoch(.. + 1)
+                            st.recover_epoch(max_proxy_epoch + 1 + 1);
+                            Ok(())
+                        }
                         "failoverheld" => {
                             // fail the source (or destination) proxy of the migration whose k-th commit call is held
                             let k: usize = toks[1].trim_start_matches('M').parse().expect("k");
@@ -1672,9 +1713,12 @@ async fn run_steps(w: Arc<World>, steps: Vec<Vec<String>>) -> (Vec<String>, Vec<
     // final facts for the monitors (not compared with the model)
     let n = { w.ctl.lock().nproxy };
     let mut fin = vec![];
-    let owner = probe_owner(&w);
     for i in 1..=n {
         let v = w.view(i);
+        let owner = v
+            .as_ref()
+            .and_then(|p| p.get_cluster_name().map(|c| c.to_string()))
+            .and_then(|c| probe_owner(&w, &c));
         let route = probe_route(&w, i).await;
         let want = match (&owner, &v) {
             (Some((op, on)), Some(p)) if p.get_cluster_name().is_some() => {
@@ -1696,15 +1740,17 @@ async fn run_steps(w: Arc<World>, steps: Vec<Vec<String>>) -> (Vec<String>, Vec<
     }
     let ov = { w.ctl.lock().order_violations.clone() };
     let cmis = { w.ctl.lock().commit_mismatch.clone() };
+    let restores: Vec<String> = { w.restores.lock().iter().map(|t| t.to_string()).collect() };
     let mut failed: Vec<String> = { w.store.lock().get_failed_proxies().iter().map(|a| pidx(a).to_string()).collect() };
     failed.sort();
     let j = |v: &Vec<String>| if v.is_empty() { "-".to_string() } else { v.join(",") };
     obs.push(format!(
-        "Z ops={} rounds={} fm={} failed={} fin={} cmis={} order={}",
+        "Z ops={} rounds={} fm={} failed={} restores={} fin={} cmis={} order={}",
         j(&ops_words),
         j(&round_words),
         j(&fm_words),
         j(&failed),
+        j(&restores),
         fin.join(","),
         if cmis.is_empty() { "ok".to_string() } else { cmis.join("+") },
         if ov.is_empty() { "ok".to_string() } else { ov.join("+") }
@@ -1756,6 +1802,8 @@ pub fn run_case(rt: &tokio::runtime::Runtime, line: &str) -> String {
     });
     let w = Arc::new(World {
         fail_mode: hd[0] == "C07F",
+        snap: Mutex::new(None),
+        restores: Mutex::new(vec![]),
         store: Mutex::new(MetaStore::new(false)),
         reg: reg.clone(),
         ctl: Mutex::new(Ctl {
